@@ -4,7 +4,8 @@ from ..fn import World
 from ..index import AnalysisError, dotted
 from ..astutil import text, short, endswith, calls_in, walk_no_nested
 from ..callgraph import CallGraph
-from ..ordertaint import Analysis, REDUCERS
+from ..ordertaint import Analysis, REDUCERS, key_is_injective, key_has_element
+from ._h_F import Res, res_of, iterations, aliases_of, strip_wrappers, call_arg, absent
 
 EXPLANATION = (
   "Order-taint analysis: iteration order of set-typed values (hash-seed / object-identity "
@@ -161,36 +162,47 @@ def _why(ft, e):
   return short(e, 80)
 
 
+def _sorted_calls(fn):
+  """(cfg node, call) of every sorted(...) evaluated in fn."""
+  return [(n, c) for (n, c, nm) in fn.calls() if nm == "sorted" and c.args]
+
+
 def r4_schedule(run, w):
   R4 = run.rule("C30-R4", "work items are ordered by a total order on nodes (lookups first)",
                 floor=1)
   fn = w.fn("engine.Engine._make_sorted_work_items")
-  ok = False
-  for c in calls_in(fn.node):
-    if dotted(c.func) == "sorted":
-      for k in c.keywords:
-        if k.arg == "key" and isinstance(k.value, ast.Lambda) and \
-            isinstance(k.value.body, ast.Tuple):
-          arg = k.value.args.args[0].arg
-          elts = [text(e) for e in k.value.body.elts]
-          ok = arg in elts      # the node itself breaks every tie: a total order
+  r = res_of(w, fn)
+  p = fn.fi.params()[1]
+  # the nodes handed in reach the work items only through a sort whose key contains the node
+  srt = [(n, c) for (n, c) in _sorted_calls(fn) if r.norm(c.args[0], n.id) == p]
+  ok = len(srt) >= 1 and all(key_has_element(fn, c) for (n, c) in srt)
+  # ... and every iteration of the parameter goes over the sorted value
+  for (it, tg, body, owner) in iterations(fn.node):
+    at = r.node_of_expr(it)
+    t = r.expand(it, at[0].id) if at else it
+    if any(isinstance(x, ast.Name) and x.id == p for x in ast.walk(t)):
+      ok = ok and isinstance(t, ast.Call) and dotted(t.func) == "sorted" and \
+          bool(t.args) and text(t.args[0]) == p
   run.ob(R4, fn.qualname, "sorted(nodes, key=lambda n: (..., n))", "scheduling order does not "
          "depend on dict/set iteration order: the sort key contains the node itself", ok, fi=fn.fi)
   for q in ("engine.Engine._bring_all_up_to_date", "engine.Engine._bring_mlookups_up_to_date",
             "engine.Engine._update_loop"):
     f = w.fn(q)
+    fr = res_of(w, f)
     for (n, c, nm) in f.calls():
       if nm == "self._update_loop" and c.args:
-        a = c.args[0]
-        ok = isinstance(a, ast.Name) and any(
-          isinstance(v, ast.Call) and (f.name(v) or "") == "self._make_sorted_work_items"
-          for v in _defs(f.node, a.id))
-        run.ob(R4, q, short(c), "update loop starts from sorted work items", ok, fi=f.fi, node=c)
+        a = fr.expand(call_arg(c, 0, "work_items"), n.id)
+        ok = isinstance(a, ast.Call) and (f.name(a) or "") == "self._make_sorted_work_items"
+        run.ob(R4, q, "self._update_loop(<sorted work items>%s)" %
+               "".join(", %s=%s" % (k.arg, text(k.value)) for k in c.keywords),
+               "update loop starts from sorted work items", ok, fi=f.fi, node=c)
     if q.endswith("_update_loop"):
-      ok = any(isinstance(s, ast.Assign) and text(s.targets[0]) == "work_items" and
-               isinstance(s.value, ast.Call) and
-               (f.name(s.value) or "") == "self._make_sorted_work_items"
-               for s in ast.walk(f.node))
+      wp = f.fi.params()[1]
+      ok = any(n.kind == "stmt" and isinstance(n.stmt, ast.Assign) and
+               any(text(t) == wp for t in n.stmt.targets) and
+               isinstance(fr.expand(n.stmt.value, n.id), ast.Call) and
+               (f.name(fr.expand(n.stmt.value, n.id)) or "") == "self._make_sorted_work_items"
+               for n in fr.cfg.nodes)
       run.ob(R4, q, "work_items = self._make_sorted_work_items(self.recompute_map.keys())",
              "remaining work is re-sorted on every round", ok, fi=f.fi)
 
@@ -201,25 +213,83 @@ def _defs(fnode, name):
                                                for t in n.targets)]
 
 
+def _inside(root, node):
+  return any(x is node for x in ast.walk(root))
+
+
 def r5_sorted_flush(run, w):
   R5 = run.rule("C30-R5", "calc deltas become actions in sorted (table, column, row) order; "
                 "auto-removals are applied in sorted order", floor=3)
   fn = w.fn("action_summary.ActionSummary.convert_deltas_to_actions")
-  loops = [s for s in ast.walk(fn.node) if isinstance(s, ast.For)]
-  ok = len(loops) == 2 and all(isinstance(l.iter, ast.Call) and dotted(l.iter.func) == "sorted"
-                               for l in loops)
+  r = res_of(w, fn)
+  # every loop from which the per-column conversion is reached iterates a sorted(...) value
+  conv = [c for (n, c, nm) in fn.calls() if endswith(nm, "self._changes_to_actions")]
+  loops = [(it, owner) for (it, tg, body, owner) in iterations(fn.node)
+           if any(_inside(b, c) for b in body for c in conv)]
+  ok = bool(conv) and len(loops) >= 2
+  for (it, owner) in loops:
+    at = r.node_of_expr(it)
+    t = r.expand(it, at[0].id) if at else it
+    ok = ok and isinstance(t, ast.Call) and dotted(t.func) == "sorted" and \
+        key_is_injective(fn, t)
+  if not conv:
+    ok = absent(w, fn, "the call of _changes_to_actions")
   run.ob(R5, fn.qualname, "for table_id in sorted(...): for col_id in sorted(...)",
          "calc actions are emitted by table then column name", ok, fi=fn.fi)
+  # rows of one column delta: every iteration over the delta dict feeds a sorted(...)
   fn = w.fn("action_summary.ActionSummary._changes_to_actions")
-  ok = any(isinstance(s, ast.Assign) and text(s.targets[0]) == "full_row_ids" and
-           isinstance(s.value, ast.Call) and dotted(s.value.func) == "sorted"
-           for s in ast.walk(fn.node))
+  r = res_of(w, fn)
+  dp = fn.fi.params()[3]
+  names = aliases_of(r, dp)
+  srt = _sorted_calls(fn)
+  n_it = 0
+  ok = True
+  du = r.du
+  for (it, tg, body, owner) in iterations(fn.node):
+    base = it
+    while isinstance(base, ast.Call) and isinstance(base.func, ast.Attribute) and \
+        base.func.attr in ("items", "keys", "values", "iteritems") and not base.args:
+      base = base.func.value
+    base = strip_wrappers(base)
+    if not (isinstance(base, ast.Name) and base.id in names):
+      continue
+    n_it += 1
+    inside_sorted = any(_inside(c.args[0], owner) for (n, c) in srt if key_is_injective(fn, c))
+    if inside_sorted:
+      continue
+    # built first, sorted afterwards: the value built here is used only as the operand of a sort
+    at = r.node_of_expr(owner) if not isinstance(owner, ast.For) else r.nodes_of(owner)
+    fed = False
+    for (n, c) in srt:
+      if not key_is_injective(fn, c):
+        continue
+      sl = du.backward_slice([c.args[0]])
+      if at and at[0].id in sl:
+        written = {nm for nm, ds in r.defs.items() if at[0].id in ds} | \
+            {nm for nm, ds in du.muts.items() if any(x.id in ds for x in r.cfg.nodes
+                                                      if x.stmt is not None and
+                                                      isinstance(owner, ast.For) and
+                                                      _inside(owner, x.stmt))}
+        uses = [x for x in r.cfg.nodes for e in x.exprs for y in walk_no_nested(e)
+                if isinstance(y, ast.Name) and isinstance(y.ctx, ast.Load) and y.id in written
+                and x.id not in sl and x.id != n.id]
+        fed = not uses
+    ok = ok and fed
   run.ob(R5, fn.qualname, "full_row_ids = sorted(...)", "rows inside a calc action are in row id "
-         "order", ok, fi=fn.fi)
+         "order", ok and n_it >= 1, fi=fn.fi)
   fn = w.fn("docmodel.DocModel.apply_auto_removes")
-  ok = any(isinstance(s, ast.Assign) and isinstance(s.value, ast.Call) and
-           dotted(s.value.func) == "sorted" and "_auto_remove_set" in text(s.value.args[0])
-           for s in ast.walk(fn.node))
+  r = res_of(w, fn)
+  # every iteration over / copy of the auto-remove set goes through sorted()
+  ok = False
+  for (n, c) in _sorted_calls(fn):
+    if "._auto_remove_set" in ("." + r.norm(c.args[0], n.id)):
+      ok = True
+  for (it, tg, body, owner) in iterations(fn.node):
+    at = r.node_of_expr(it)
+    t = r.expand(it, at[0].id) if at else it
+    if "_auto_remove_set" in text(t) and not (isinstance(t, ast.Call) and
+                                               dotted(t.func) == "sorted"):
+      ok = False
   run.ob(R5, fn.qualname, "gone_records = sorted(self._auto_remove_set, ...)",
          "auto-removals happen in a deterministic order", ok, fi=fn.fi)
 
